@@ -6,12 +6,12 @@ From JT Require Import model.PyTreeCheck proofs.TreeFacts proofs.StructFacts.
 Open Scope string_scope.
 
 Theorem C09_bind_on_first_use : forall n x tm,
-  aget tm n = None -> structure_step (SName n) x tm = SOk (aset tm n x).
+  aget tm n = None -> structure_step (SName n) x tm = StOk (aset tm n x).
 Proof. exact bind_on_first_use. Qed.
 Print Assumptions C09_bind_on_first_use.
 
 Theorem C09_later_use_accepts_iff_identical : forall n x tm prev,
-  aget tm n = Some prev -> (structure_step (SName n) x tm = SOk tm <-> x = prev).
+  aget tm n = Some prev -> (structure_step (SName n) x tm = StOk tm <-> x = prev).
 Proof. exact later_use_accepts_iff_identical. Qed.
 Print Assumptions C09_later_use_accepts_iff_identical.
 
@@ -30,16 +30,16 @@ Print Assumptions C09_compose_assoc.
 
 Theorem C09_composite_exact : forall names ds x tm,
   lookup_all tm names = Some ds ->
-  (structure_step (SComp false false names) x tm = SOk tm <-> x = composed ds) /\
-  (structure_step (SComp false false names) x tm = SOk tm \/ structure_step (SComp false false names) x tm = SNo).
+  (structure_step (SComp false false names) x tm = StOk tm <-> x = composed ds) /\
+  (structure_step (SComp false false names) x tm = StOk tm \/ structure_step (SComp false false names) x tm = StNo).
 Proof. exact composite_exact. Qed.
 Print Assumptions C09_composite_exact.
 
 (* `T ...`: exactly the trees obtained from T by replacing every leaf by some tree *)
 Theorem C09_prefix_exact : forall names ds x tm,
   lookup_all tm names = Some ds ->
-  (structure_step (SComp true false names) x tm = SOk tm <-> Prefix (composed ds) x) /\
-  (structure_step (SComp true false names) x tm = SOk tm \/ structure_step (SComp true false names) x tm = SNo).
+  (structure_step (SComp true false names) x tm = StOk tm <-> Prefix (composed ds) x) /\
+  (structure_step (SComp true false names) x tm = StOk tm \/ structure_step (SComp true false names) x tm = StNo).
 Proof. exact prefix_exact. Qed.
 Print Assumptions C09_prefix_exact.
 
@@ -47,8 +47,8 @@ Print Assumptions C09_prefix_exact.
    including leaf-less T and candidates containing None / empty containers *)
 Theorem C09_suffix_exact : forall names ds x tm,
   lookup_all tm names = Some ds ->
-  (structure_step (SComp false true names) x tm = SOk tm <-> exists u, x = compose u (composed ds)) /\
-  (structure_step (SComp false true names) x tm = SOk tm \/ structure_step (SComp false true names) x tm = SNo).
+  (structure_step (SComp false true names) x tm = StOk tm <-> exists u, x = compose u (composed ds)) /\
+  (structure_step (SComp false true names) x tm = StOk tm \/ structure_step (SComp false true names) x tm = StNo).
 Proof. exact suffix_form_exact. Qed.
 Print Assumptions C09_suffix_exact.
 
@@ -57,7 +57,7 @@ Proof. exact suffix_exact. Qed.
 Print Assumptions C09_greedy_cut_exact.
 
 Theorem C09_unbound_name_raises : forall pre suf names x tm,
-  lookup_all tm names = None -> structure_step (SComp pre suf names) x tm = SRaise.
+  lookup_all tm names = None -> structure_step (SComp pre suf names) x tm = StRaise.
 Proof. exact unbound_name_raises. Qed.
 Print Assumptions C09_unbound_name_raises.
 
